@@ -147,7 +147,7 @@ func verifNewDBStack(rnd *verifutil.Rand, ents []verifc02.Ent, opts verifc02.Bui
 		return nil, err
 	}
 	s.tree = verifc02.NewTree(rootNode)
-	s.meta = &verifc02.Meta{T: s.tree, View: s.view, Ctx: opts.String()}
+	s.meta = &verifc02.Meta{T: s.tree, View: s.view, Ctx: opts.String(), RootSig: verifc02.SigDBRootAttr}
 	// independent db reader for ChunkEntryForOffset
 	var d metadata.Decompressor = &estargz.GzipDecompressor{}
 	if opts.Zstd {
@@ -347,25 +347,23 @@ func TestVerifC02DB(t *testing.T) {
 	defer out.Close()
 	nhist := verifutil.EnvInt("VERIF_N", 20)
 	nops := verifutil.EnvInt("VERIF_OPS", 30)
+	verifDBWitnesses(out, rnd)
 	for h := 0; h < nhist; h++ {
-		var ents []verifc02.Ent
-		var opts verifc02.BuildOpts
-		if h == 0 {
-			// the layout of the memory store's candidate finding must be fine here
-			ents = []verifc02.Ent{{Name: "a", Type: tar.TypeReg, Mode: 0o644, Size: 10, Salt: 1}, {Name: "e", Type: tar.TypeReg, Mode: 0o644, Salt: 2},
-				{Name: "b", Type: tar.TypeReg, Mode: 0o644, Size: 12, Salt: 3}, {Name: "./", Type: tar.TypeDir, Mode: 0o711}}
-			opts = verifc02.BuildOpts{ChunkSize: 4, MinChunkSize: 100000, Prioritized: []string{"a", "e", "b"}}
-		} else {
-			ents = verifc02.GenTar(rnd, verifc02.GenParams{MaxEntries: 12, ChunkHint: []int64{7, 33, 64, 500}[rnd.Intn(4)], MaxFile: 3000})
-			opts = verifc02.GenBuildOpts(rnd, ents)
-			if rnd.Intn(6) == 0 {
-				opts.Plain, opts.Prioritized = true, nil
-			}
+		ents := verifc02.GenTar(rnd, verifc02.GenParams{MaxEntries: 12, ChunkHint: []int64{7, 33, 64, 500}[rnd.Intn(4)], MaxFile: 3000, NoLateDirs: true})
+		opts := verifc02.GenBuildOpts(rnd, ents)
+		if rnd.Intn(6) == 0 {
+			opts.Plain, opts.Prioritized = true, nil
 		}
 		verify := rnd.Intn(5) != 0
 		s, err := verifNewDBStack(rnd, ents, opts, verify, 2, 0)
 		if err != nil {
 			out.Fail("db-stack-setup-failed", fmt.Sprintf("history %d: %v [%s]", h, err, opts))
+			continue
+		}
+		if verifc02.TaintedDB(s.files) {
+			// layout of the labelled candidate finding; exercised by its own witness only
+			out.Count("skipped-tainted-layout-db")
+			s.close()
 			continue
 		}
 		out.Comment(fmt.Sprintf("db history %d: %d tar entries, %s, %s", h, len(s.ents), s.opts, s.cfgStr))
@@ -455,5 +453,65 @@ func TestVerifC02DB(t *testing.T) {
 		}
 		out.Distinct(fmt.Sprintf("db/%s/%s/%d", s.opts, s.cfgStr, len(s.ents)))
 		s.close()
+	}
+}
+
+// verifDBWitnesses replays the minimal archives of the db store's candidate findings, each under its
+// own signature.
+func verifDBWitnesses(out *verifutil.Out, rnd *verifutil.Rand) {
+	reg := func(name string, size int64, salt int64) verifc02.Ent {
+		return verifc02.Ent{Name: name, Type: tar.TypeReg, Mode: 0o644, Size: size, Salt: salt, MTime: 1700000000}
+	}
+	// (1) two chunks of one file in one gzip member
+	{
+		ents := []verifc02.Ent{reg("a", 10, 1), reg("b", 12, 3)}
+		opts := verifc02.BuildOpts{ChunkSize: 4, MinChunkSize: 100000}
+		s, err := verifNewDBStack(rnd, ents, opts, true, 2, 0)
+		if err != nil {
+			out.Fail("witness-setup-failed", err.Error())
+		} else {
+			out.Comment("witness " + verifc02.SigDBTwoChunksInMember)
+			got, errno := s.tree.Read("a", 0, 4)
+			if errno != 0 || !bytes.Equal(got, s.view["a"].Content[:4]) {
+				out.Fail(verifc02.SigDBTwoChunksInMember, fmt.Sprintf("db store, tar [a(10 bytes) b(12 bytes)] built with chunk-size 4, min-chunk-size 100000 "+
+					"(one gzip member holds the 3 chunks of a and the 3 chunks of b): reading \"a\"[0:4] with a healthy registry gives errno=%v bytes=%q", errno, got))
+			} else {
+				out.Count("witness-db-two-chunks-ok")
+			}
+			s.close()
+		}
+	}
+	// (3) a directory entry after an entry below it
+	{
+		ents := []verifc02.Ent{reg("x/y/f", 5, 1), {Name: "x/y/", Type: tar.TypeDir, Mode: 0o755}}
+		s, err := verifNewDBStack(rnd, ents, verifc02.BuildOpts{ChunkSize: 64}, true, 2, 0)
+		if err != nil {
+			out.Fail("witness-setup-failed", err.Error())
+		} else {
+			out.Comment("witness " + verifc02.SigDBLateDir)
+			a, errno := s.tree.Getattr("x")
+			if errno != 0 || a.Nlink != 3 {
+				out.Fail(verifc02.SigDBLateDir, fmt.Sprintf("db store, tar [x/y/f, x/y/ (directory entry after its content)]: getattr \"x\" gives errno=%v nlink=%d, "+
+					"the tar describes one subdirectory (nlink 3)", errno, a.Nlink))
+			} else {
+				out.Count("witness-db-late-dir-ok")
+			}
+			s.close()
+		}
+	}
+	// (2) the root's attributes
+	{
+		ents := []verifc02.Ent{{Name: "./", Type: tar.TypeDir, Mode: 0o711, UID: 7, GID: 8, MTime: 86400, Xattrs: [][2]string{{"user.k", "v"}}},
+			{Name: "./d/", Type: tar.TypeDir, Mode: 0o755}, reg("./d/f", 5, 1)}
+		s, err := verifNewDBStack(rnd, ents, verifc02.BuildOpts{ChunkSize: 64}, true, 2, 0)
+		if err != nil {
+			out.Fail("witness-setup-failed", err.Error())
+		} else {
+			out.Comment("witness " + verifc02.SigDBRootAttr)
+			s.meta.Out = out
+			s.meta.Stat("", false)
+			s.meta.Xattr("", "user.k", false)
+			s.close()
+		}
 	}
 }
